@@ -118,6 +118,12 @@ impl Acc {
             self.samples.push(v());
         }
     }
+    /// Is this signature listed as a known finding (reported once, never counted against
+    /// caps; a monitor may keep exploring the case after it)?
+    pub fn is_known(&self, signature: &str) -> bool {
+        self.known.contains(signature)
+    }
+
     pub fn violation(&mut self, signature: impl Into<String>, case: u64, detail: Value) {
         let signature = signature.into();
         if self.known.contains(&signature) {
